@@ -161,6 +161,11 @@ func Load(opt Options) (*Program, error) {
 			if g.Object() != nil && g.Object().Exported() && !p.isInternalPkg(g) {
 				return false // API functions keep their name on their callers' paths, whatever their body looks like
 			}
+			if a, frozen := FrozenAnchors[paths.FuncName(g)]; frozen {
+				// a function of the confirmed tree keeps its name on its callers' paths, unless it was a one-line
+				// forwarding wrapper there (and still is): callers then see the wrapped call
+				return a.Wrapper && paths.TrivialWrapper(g)
+			}
 			if paths.TrivialWrapper(g) {
 				return true // forwards to one call: callers see the wrapped call
 			}
@@ -705,16 +710,16 @@ func GenAnchors(p *Program) string {
 		if strings.HasSuffix(name, ".init") {
 			continue
 		}
-		ents[name] = Anchor{Pkg: strings.TrimPrefix(p.PkgPathOf(f), Module+"/"), Sig: sigKey(f)}
+		ents[name] = Anchor{Pkg: strings.TrimPrefix(p.PkgPathOf(f), Module+"/"), Sig: sigKey(f), Wrapper: paths.TrivialWrapper(f)}
 		names = append(names, name)
 	}
 	sort.Strings(names)
 	var sb strings.Builder
 	sb.WriteString("package load\n\n// Code generated by `ucandump -anchors`; DO NOT EDIT by hand.\n\n")
-	sb.WriteString("// Anchor is the frozen identity of an unexported function: package (relative to the module) and\n// receiver|signature rendering.\ntype Anchor struct{ Pkg, Sig string }\n\n")
+	sb.WriteString("// Anchor is the frozen identity of an unexported function: package (relative to the module) and\n// receiver|signature rendering.\ntype Anchor struct {\n\tPkg, Sig string\n\tWrapper  bool // a one-line forwarding wrapper on the confirmed tree\n}\n\n")
 	sb.WriteString("// FrozenAnchors lists the unexported library functions of the tree the rules were confirmed on. When one of\n// these names is missing, the loader binds it to the unique function with the same package, receiver and\n// signature that carries an unknown name (a renamed function), so that renames do not unresolve anchors.\nvar FrozenAnchors = map[string]Anchor{\n")
 	for _, n := range names {
-		fmt.Fprintf(&sb, "\t%q: {%q, %q},\n", n, ents[n].Pkg, ents[n].Sig)
+		fmt.Fprintf(&sb, "\t%q: {%q, %q, %v},\n", n, ents[n].Pkg, ents[n].Sig, ents[n].Wrapper)
 	}
 	sb.WriteString("}\n")
 	sb.WriteString("\n// FrozenField is the frozen identity of a struct field: name and type.\ntype FrozenField struct{ Name, Type string }\n\n")
